@@ -105,7 +105,11 @@ class StubSim(mosaik_api_v3.Simulator):
             self.ctx.ev("X", self.sid, "raises", sp["raise_in_step"][str(k)], k)
             raise exc(f"error inside step {k} of {self.sid}")
         lat = self.ctx.latency(self, k) if getattr(self.ctx, "latency", None) else 0
-        if lat:
+        if lat < 0:
+            # a synchronous simulator that computes for a while without yielding to the
+            # event loop: the virtual clock moves on within this callback
+            self.ctx.loop._vtime += -lat
+        elif lat:
             import asyncio
             yield asyncio.sleep(lat)       # on the virtual clock
         # asynchronous requests towards mosaik (C16)
